@@ -1,4 +1,4 @@
-import UrcuVerif.Src.SyncSync
+import UrcuVerif.Src.SyncFull
 /-!
 # Source refinement, grace-period updater side (memb / mb): final statements
 
@@ -101,6 +101,80 @@ theorem mb_synchronize_rcu_refines (trk : Bool) (fuel : Nat) (hq : QueueQuiet tr
       lrun ss.ls labs = some ss'.ls ∧ SyncPost out.ctl out.env ss' wins' := by
   have := (Ok_iff _ _ _ _ _).1 (mb_sync_holds trk fuel hq g env inp ss wins hI out h)
   exact ⟨this.1, fun labs ss' wins' ha => ⟨absRun_lrun _ _ _ _ _ _ _ ha, this.2 labs ss' wins' ha⟩⟩
+
+/-! ### without the `QueueQuiet` assumption: the pointer discipline
+
+`RetSafe e`: the value the event returned to the thread (the oracle value it consumed) is an integer or a pointer to a *safe*
+location (`SafeLoc`: no `->ctr` in the access path, not rooted at `rcu_gp` or a membarrier configuration global – i.e. never
+`&rcu_gp.ctr`, `&rcu_gp.futex`, a reader word or a configuration global; wait nodes, wait queues, registry records are safe).
+`PrivSafe` (inside `MPreS`): the thread's private view holds safe values at safe locations.  Under that discipline the five
+wait-queue callees (generated bodies of `urcu_wait_add`/`_cds_wfs_push`, `urcu_adaptative_busy_wait`, `urcu_wait_set_state`,
+`urcu_move_waiters`/`___cds_wfs_pop_all`, `urcu_wake_all_waiters`/`_cds_wfs_first`/`_cds_wfs_next_blocking`/
+`urcu_adaptative_wake_up`) are proved silent for the Flip checker by a generic pointer-safety theorem (`exec_safe`) and a
+syntactic check of the generated bodies (`okStmt … = true := by decide`). -/
+
+theorem memb_synchronize_rcu_refines_full (trk : Bool) (fuel : Nat) (g : Bool) (env : Env)
+    (inp : List Val) (ss : SS) (wins : Wins) (out : Out) (hI : PI (MPreS MembPre) g (fun _ => True) env ss)
+    (h : exec fuel Gen.Src.«memb.synchronize_rcu» env inp = .ok out) (hd : ∀ e ∈ out.events, RetSafe e = true) :
+    absRun trk ss wins out.events ≠ .bad ∧
+    ∀ labs ss' wins', absRun trk ss wins out.events = .ok labs ss' wins' →
+      lrun ss.ls labs = some ss'.ls ∧ SyncPost out.ctl out.env ss' wins' := by
+  have := (Ok_iff _ _ _ _ _).1 (memb_sync_holdsS trk fuel g env inp ss wins hI out h hd)
+  exact ⟨this.1, fun labs ss' wins' ha => ⟨absRun_lrun _ _ _ _ _ _ _ ha, this.2 labs ss' wins' ha⟩⟩
+
+theorem mb_synchronize_rcu_refines_full (trk : Bool) (fuel : Nat) (g : Bool) (env : Env)
+    (inp : List Val) (ss : SS) (wins : Wins) (out : Out) (hI : PI (MPreS (fun _ => True)) g (fun _ => True) env ss)
+    (h : exec fuel Gen.Src.«mb.synchronize_rcu» env inp = .ok out) (hd : ∀ e ∈ out.events, RetSafe e = true) :
+    absRun trk ss wins out.events ≠ .bad ∧
+    ∀ labs ss' wins', absRun trk ss wins out.events = .ok labs ss' wins' →
+      lrun ss.ls labs = some ss'.ls ∧ SyncPost out.ctl out.env ss' wins' := by
+  have := (Ok_iff _ _ _ _ _).1 (mb_sync_holdsS trk fuel g env inp ss wins hI out h hd)
+  exact ⟨this.1, fun labs ss' wins' ha => ⟨absRun_lrun _ _ _ _ _ _ _ ha, this.2 labs ss' wins' ha⟩⟩
+
+/-- the generic pointer-safety theorem and the five instances -/
+theorem exec_safe_refines (st : Stmt) (hok : okStmt st = true) (fuel : Nat) (env : Env) (inp : List Val) (out : Out)
+    (hs : SafeEnv env) (h : exec fuel st env inp = .ok out) (hr : ∀ e ∈ out.events, RetSafe e = true) : SafeOut env out :=
+  exec_safe st hok fuel env inp out hs h hr
+theorem queue_callees_quiet (trk : Bool) (MPre : (Loc → Option Val) → Prop) (hU : MUnsafeOnly MPre) :
+    QuietS trk (MPreS MPre) qWaitAdd (some "_t1") ∧ QuietS trk (MPreS MPre) qBusyWait none ∧
+    QuietS trk (MPreS MPre) qSetState none ∧ QuietS trk (MPreS MPre) qMoveWaiters none ∧
+    QuietS trk (MPreS MPre) qWakeAll none :=
+  ⟨qWaitAdd_quiet trk MPre hU, qBusyWait_quiet trk MPre hU, qSetState_quiet trk MPre hU, qMoveWaiters_quiet trk MPre hU,
+    qWakeAll_quiet trk MPre hU⟩
+
+/-- labels, final pc and control of a run -/
+def labelsOf (trk : Bool) (r : Except String Out) (ss : SS) (wins : Wins) : Option (List LLabel × Gp.UPc × Ctl × Bool) :=
+  match r with
+  | .ok o =>
+    match absRun trk ss wins o.events with
+    | .ok labs ss' _ => some (labs, ss'.ls.upc, o.ctl, o.events.all RetSafe)
+    | _ => none
+  | _ => none
+
+def envS : Env :=
+  { vars := fun _ => none,
+    priv := fun l => if l = gpCtr then some (.int 1) else if l = .glob "CONFIG_RCU_EMIT_LEGACY_MB" then some (.int 0) else none }
+def ssIdle : SS := ⟨{ upc := .idle, gp := false, reg := [0], inp := [], snap := [], qs := [] }, none⟩
+
+/-- a complete run of the GENERATED `mb.synchronize_rcu` (leader, one inactive reader; 25 events, all returned values
+safe): wait-queue push, both locks, `uStart`, master barrier, pass 1, flip, pass 2, splice, master barrier, unlocks,
+wake-up iteration over the (own, RUNNING) wait node -/
+example : labelsOf false (exec 5 Gen.Src.«mb.synchronize_rcu» envS
+      [.int 1, .int 0, .ptr (.field (.glob "&wait") "node"), .int 0, .int 0,
+       .ptr (.obj 0), .int 0, .int 0, .int 0, .int 1, .int 0, .int 1, .int 0, .int 0, .int 0, .int 1, .int 2]) ssIdle [[]] =
+    some ([.uStart false, .uMbarRet false, .uScan1Inactive 0 (0, false), .uFlip true, .uP2Done, .uEnd false],
+      .idle, .normal, true) := by decide
+
+/-- hypotheses of `mb_synchronize_rcu_refines_full` satisfiable -/
+example : PI (MPreS (fun _ => True)) false (fun _ => True) envS ssIdle := by
+  refine ⟨rfl, rfl, rfl, by simp [envS, encGp], ⟨trivial, ?_⟩, trivial⟩
+  intro l v hl hv
+  simp only [envS] at hv
+  split at hv
+  · simp at hv; subst hv; rfl
+  · split at hv
+    · simp at hv; subst hv; rfl
+    · simp at hv
 
 /-- the grace period proper (`gpBlock`, no assumption): from pc `mbar1` to pc `idle` with the phase flipped -/
 theorem memb_grace_period_refines (trk : Bool) (fuel : Nat) (g : Bool) (vars : String → Option Val) (env : Env)
